@@ -118,7 +118,9 @@ func observeAV1Rt(o *Toks, mtu uint16, stream []byte) (payloads [][]byte, panick
 	}
 	var deps []dres
 	panicked = try(func() {
-		payloads = (&codecs.AV1Payloader{}).Payload(mtu, cloneBytes(stream))
+		// the stream is handed over exactly sized or as a window of a larger array (payWindow)
+		_, in := payWindow(stream, int(mtu))
+		payloads = (&codecs.AV1Payloader{}).Payload(mtu, in)
 		// the sender appends its trailer (auth tag, padding) to every payload in place
 		scribbleSpare(payloads...)
 		asm := &pkgframe.AV1{} // the deprecated alias of frame.AV1
